@@ -131,3 +131,27 @@ W w_big(int64_t which, int64_t x, int64_t* out)
     out[4] = (int64_t)xtl::holds_alternative<Tag<0>>(v) | (int64_t)xtl::holds_alternative<Tag<1>>(v) << 1;
     return 0;
 }
+
+// ---- alternatives whose copy/move ASSIGNMENT is trivial (defaulted) while copy construction and destruction are user-provided: the variant must still
+// go through destroy + construct when the alternative changes (it may only assign bytewise when every special member of every alternative is trivial) ----
+struct TA { int v; explicit TA(int x) : v(x) { hook_ctor(3, this); } TA(const TA& o) : v(o.v) { hook_ctor(3, this); } TA& operator=(const TA&) = default; ~TA() { hook_dtor(3, this); } };
+struct TB { int v; int pad; explicit TB(int x) : v(x), pad(7) { hook_ctor(4, this); } TB(const TB& o) : v(o.v), pad(7) { hook_ctor(4, this); } TB& operator=(const TB&) = default; ~TB() { hook_dtor(4, this); } };
+static_assert(std::is_trivially_copy_assignable<TA>::value && !std::is_trivially_copy_constructible<TA>::value && !std::is_trivially_destructible<TB>::value, "alternative kinds");
+typedef xtl::variant<int, TA, TB> VT;
+static inline void obs_t(const VT& v, int64_t* o) { o[0] = v.valueless_by_exception() ? 3 : static_cast<int64_t>(v.index()); o[1] = xtl::get_if<0>(&v) ? *xtl::get_if<0>(&v) : xtl::get_if<1>(&v) ? xtl::get_if<1>(&v)->v : xtl::get_if<2>(&v) ? xtl::get_if<2>(&v)->v : -7; }
+static inline void build_t(VT& v, int64_t kind, int64_t val) { if (kind == 0) v.emplace<0>(static_cast<int>(val)); else if (kind == 1) v.emplace<1>(static_cast<int>(val)); else v.emplace<2>(static_cast<int>(val)); }
+W w_triv(int64_t k1, int64_t x1, int64_t k2, int64_t x2, int64_t op, int64_t* o1, int64_t* o2, int64_t* o3)
+{
+    {
+        VT a, b; build_t(a, k1, x1); build_t(b, k2, x2);
+        switch (op) {
+            case 0: a = b; break;
+            case 1: a = std::move(b); break;
+            case 2: a.swap(b); break;
+            case 3: { VT c(a); obs_t(c, o3); } break;
+            default: a = TB(static_cast<int>(x2)); break;
+        }
+        obs_t(a, o1); obs_t(b, o2);
+    }
+    return 0;
+}
